@@ -97,7 +97,7 @@ func main() {
 		}
 	}
 	t0 := time.Now()
-	opts := rules.RunOpts{Repo: absRepo, Verif: *verif, Tier: *tier, Seed: seed, Verbose: *verbose, WriteEvidence: !*noEvidence, Findings: ff}
+	opts := rules.RunOpts{Repo: absRepo, Verif: *verif, Tier: *tier, Seed: seed, Verbose: *verbose, WriteEvidence: !*noEvidence, Findings: ff, Start: t0}
 	if *replay != "" {
 		b, err := os.ReadFile(*replay)
 		if err != nil {
